@@ -329,3 +329,24 @@ brk("c19-and-to-or-assign", ["C19"], "sea-query-derive/src/lib.rs", "           
 brk("c19-swapped-branches", ["C19"], "sea-query-derive/src/lib.rs", "    let prepare = if is_all_valid {\n", "    let prepare = if !is_all_valid {\n", "C19.R2:enum:guard")
 brk("c19-lowercase", ["C19"], "sea-query-derive/src/iden/write_arm.rs", "            self.ident.to_string().to_snake_case()\n        }\n    }", "            self.ident.to_string().to_lowercase()\n        }\n    }", "C19.R")
 brk("c19-table-lowercase-cmp", ["C19"], "sea-query-derive/src/iden/write_arm.rs", '        if self.ident == "Table" {', '        if self.ident == "table" {', "C19.R")
+
+# ---- C11 -------------------------------------------------------------------------------------------------------
+brk("c11-values-num", ["C11"], "src/backend/query_builder.rs", "self.prepare_simple_expr(&values[num - 1], sql);", "self.prepare_simple_expr(&values[num], sql);", "C11.R1:custom:unclassified")
+brk("c11-count-not-incremented", ["C11"], "src/backend/query_builder.rs",
+    """                                self.prepare_simple_expr(&values[count], sql);
+                                count += 1;""",
+    """                                self.prepare_simple_expr(&values[count], sql);""", "C11.R1:custom:unclassified")
+brk("c11-doubled-emits-two", ["C11"], "src/backend/query_builder.rs",
+    """                                write!(sql, "{mark}").unwrap();
+                                tokenizer.next();""",
+    """                                write!(sql, "{mark}{mark}").unwrap();
+                                tokenizer.next();""", "C11.R1:custom:unclassified")
+brk("c11-inject-off-by-one", ["C11"], "src/prepare.rs", "output.push(query_builder.value_to_string(&params[num - 1]));", "output.push(query_builder.value_to_string(&params[num]));", "C11.R2:inject:unclassified")
+brk("c11-cust-values-rev", ["C11"], "src/expr.rs",
+    """            v.into_iter()
+                .map(|v| Into::<Value>::into(v).into())
+                .collect(),""",
+    """            v.into_iter()
+                .map(|v| Into::<Value>::into(v).into())
+                .rev()
+                .collect(),""", "C11.R3:cust_with_values")
